@@ -5,8 +5,9 @@ CONSTANTS
   Nodes <- Nodes3
   Seat <- Seat3
   MaxRounds = 1
-  MaxReqs = 1
-  MaxDeliver = 1
+  MaxReqs = 0
+  MaxDkgDeliver = 1
+  MaxRelayDeliver = 1
   MaxBad = 1
   MaxStops = 0
   MaxViewMis = 1
